@@ -9,7 +9,8 @@ pf="$d/patch.diff"
 git apply --check "$pf" 2>/dev/null || pf="$d/patch_rebased_on_fix.diff"
 git apply "$pf" || { echo "{\"seed\": \"$id\", \"error\": \"patch does not apply\"}" | tee "$d/confirm.json"; cd /; git -C /repo worktree remove --force "$wt"; exit 2; }
 patched=$(PYTHONPATH=$wt LOKY_MAX_CPU_COUNT=2 OMP_NUM_THREADS=1 timeout 1200 /venv/bin/python $d/demo.py >/dev/null 2>&1; echo $?)
-base=$(nice -n 10 /verif/tools/baseline.py "$wt" -n 5 | head -1)
+nice -n 10 /verif/tools/baseline.py "$wt" -n 5 > "$d/baseline.txt" 2>&1
+base=$(head -1 "$d/baseline.txt")
 cd /
 git -C /repo worktree remove --force "$wt"
 echo "{\"seed\": \"$id\", \"patch\": \"$(basename $pf)\", \"repo_head\": \"$(git -C /repo rev-parse --short HEAD)\", \"demo_exit_clean\": $clean, \"demo_exit_patched\": $patched, \"baseline_with_patch\": \"$base\"}" | tee "$d/confirm.json"
